@@ -9,13 +9,11 @@ Definition checked_enc (o : opts) (accept : str -> bool) (r : res (list item)) :
   | Ok its => if xmlCheckIsValid o && negb (accept (emit its)) then Err EOther else Ok its
   | _ => r
   end.
-(* MapSeq.Xml as it was written before fix 122e022 (xmlseq.go): the tokenizer was run over *s, a
-   string that was never assigned (the output is in the strings.Builder), i.e. over the empty
-   document.  Since the fix all four encoders are [checked_enc]; this transcription is kept as the
-   regression witness of the oracle key mapseq-xml-check-ignores-output *)
-Definition checked_at_empty (o : opts) (accept : str -> bool) (r : res (list item)) : res (list item) :=
+(* the same check on the bytes of any encoder (all four encoders end with it: Map.Xml, Map.XmlIndent,
+   MapSeq.XmlIndent, and since fix 122e022 MapSeq.Xml, which used to tokenize an empty string) *)
+Definition checked_bytes (o : opts) (accept : str -> bool) (r : res str) : res str :=
   match r with
-  | Ok its => if xmlCheckIsValid o && negb (accept []) then Err EOther else Ok its
+  | Ok b => if xmlCheckIsValid o && negb (accept b) then Err EOther else Ok b
   | _ => r
   end.
 
